@@ -13,29 +13,46 @@ open Compio.QueueIntrusive
 
 /-- the queue lists of `e` are represented by some well-formed intrusive queue whose key counter is the
 number of tasks spawned so far (the next `insert` returns the id the model gives the next task) -/
-def QRep (e : Exec) : Prop := ∃ c : IQ, Rep c e.hot e.cold ∧ c.map.length = e.tasks.length
+def QRep (e : Exec) : Prop :=
+  ∃ c : IQ, runOps IQ.empty e.qlog = some c ∧ Rep c e.hot e.cold ∧ c.map.length = e.tasks.length
+
+theorem runOps_append (l1 : List QueueIntrusive.Op) : ∀ (c : IQ) (l2 : List QueueIntrusive.Op),
+    runOps c (l1 ++ l2) = (runOps c l1).bind fun c' => runOps c' l2 := by
+  induction l1 with
+  | nil => intro c l2; simp [runOps]
+  | cons a l1 ih =>
+    intro c l2
+    simp only [List.cons_append, runOps]
+    cases applyOp c a with
+    | none => rfl
+    | some c1 => simpa using ih c1 l2
+
+theorem runOps_snoc {c0 c c' : IQ} {l : List QueueIntrusive.Op} {op : QueueIntrusive.Op}
+    (h : runOps c0 l = some c) (h' : applyOp c op = some c') : runOps c0 (l ++ [op]) = some c' := by
+  rw [runOps_append, h]; simp [runOps, h']
 
 theorem QRep.congr {e e' : Exec} (h : QRep e) (h1 : e'.hot = e.hot) (h2 : e'.cold = e.cold)
-    (h3 : e'.tasks.length = e.tasks.length) : QRep e' := by
-  obtain ⟨c, r, l⟩ := h
-  exact ⟨c, by rw [h1, h2]; exact r, by rw [h3]; exact l⟩
+    (h3 : e'.tasks.length = e.tasks.length) (h4 : e'.qlog = e.qlog := by rfl) : QRep e' := by
+  obtain ⟨c, q, r, l⟩ := h
+  exact ⟨c, by rw [h4]; exact q, by rw [h1, h2]; exact r, by rw [h3]; exact l⟩
 
 theorem QRep.wf_abs {e : Exec} (h : QRep e) : ∃ c : IQ, WF c ∧ abs c = (e.hot, e.cold) := by
-  obtain ⟨c, r, _⟩ := h
+  obtain ⟨c, _, r, _⟩ := h
   exact ⟨c, ⟨_, _, r⟩, abs_of_rep r⟩
 
 theorem qrep_makeHot {e : Exec} (h : QRep e) (id : Nat) : QRep (makeHot e id) := by
-  obtain ⟨c, r, l⟩ := h
-  obtain ⟨c', _, r', l'⟩ := rep_makeHot r id
-  refine ⟨c', ?_, by rw [l', l]; unfold makeHot; split <;> rfl⟩
-  unfold specMakeHot at r'
+  obtain ⟨c, q, r, l⟩ := h
   unfold makeHot
   by_cases hc : id ∈ e.cold
-  · simpa [hc] using r'
-  · simpa [hc] using r'
+  · obtain ⟨c', hm, r', l'⟩ := rep_makeHot r id
+    unfold specMakeHot at r'
+    exact ⟨c', by simpa [hc] using runOps_snoc q (show applyOp c (.makeHot id) = some c' from hm),
+      by simpa [hc] using r', by simp [hc, l', l]⟩
+  · simp only [List.contains_iff_mem, hc, if_false, Bool.false_eq_true]
+    exact ⟨c, q, r, l⟩
 
 theorem qrep_makeCold {e : Exec} (h : QRep e) (id : Nat) : QRep (makeCold e id) := by
-  obtain ⟨c, r, l⟩ := h
+  obtain ⟨c, q, r, l⟩ := h
   unfold makeCold
   by_cases hh : id ∈ e.hot
   · have hpre : id ∉ e.cold := by
@@ -43,16 +60,18 @@ theorem qrep_makeCold {e : Exec} (h : QRep e) (id : Nat) : QRep (makeCold e id) 
       have := (rep_iff.mp r).1
       rw [List.nodup_append] at this
       exact this.2.2 id hh id hc rfl
-    obtain ⟨c', _, r', l', _⟩ := rep_makeCold r id hpre
+    obtain ⟨c', hm, r', l', _⟩ := rep_makeCold r id hpre
     unfold specMakeCold at r'
-    exact ⟨c', by simpa [hh] using r', by simp [hh, l', l]⟩
+    exact ⟨c', by simpa [hh] using runOps_snoc q (show applyOp c (.makeCold id) = some c' from hm),
+      by simpa [hh] using r', by simp [hh, l', l]⟩
   · simp only [List.contains_iff_mem, hh, if_false, Bool.false_eq_true]
-    exact ⟨c, r, l⟩
+    exact ⟨c, q, r, l⟩
 
 theorem qrep_removeTask {e : Exec} (h : QRep e) (id : Nat) : QRep (removeTask e id) := by
-  obtain ⟨c, r, l⟩ := h
-  obtain ⟨c', _, r', l', _⟩ := rep_remove r id
-  exact ⟨c', by simpa [specRemove, removeTask] using r', by simp [removeTask, l', l]⟩
+  obtain ⟨c, q, r, l⟩ := h
+  obtain ⟨c', hm, r', l', _⟩ := rep_remove r id
+  exact ⟨c', by simpa [removeTask] using runOps_snoc q (show applyOp c (.remove id) = some c' by simp [applyOp, hm]),
+    by simpa [specRemove, removeTask] using r', by simp [removeTask, l', l]⟩
 
 theorem qrep_foldl_makeHot (l : List Nat) : ∀ {e : Exec}, QRep e → QRep (l.foldl makeHot e) := by
   induction l with
@@ -147,26 +166,28 @@ theorem qrep_finishSched {e : Exec} (h : QRep e) (id : Nat) : QRep (finishSched 
 
 /-- `Executor::spawn`: the key `insert` returns is the id the model gives the task -/
 theorem qrep_spawn {e : Exec} (h : QRep e) (sc : List Outcome) : QRep (spawn e sc).1 := by
-  obtain ⟨c, r, l⟩ := h
-  obtain ⟨c', _, r', _, _, l'⟩ := rep_insert r
-  refine ⟨c', ?_, by simp [spawn, l', l]⟩
+  obtain ⟨c, q, r, l⟩ := h
+  obtain ⟨c', hm, r', _, _, l'⟩ := rep_insert r
+  refine ⟨c', by simpa [spawn] using runOps_snoc q (show applyOp c .insert = some c' by simp [applyOp, hm]),
+    ?_, by simp [spawn, l', l]⟩
   simpa [specInsert, spawn, l] using r'
 
 theorem clearTask_queues (e : Exec) (id : Nat) :
     (clearTask e id).hot = e.hot ∧ (clearTask e id).cold = e.cold ∧
-    (clearTask e id).tasks.length = e.tasks.length := by
+    (clearTask e id).tasks.length = e.tasks.length ∧ (clearTask e id).qlog = e.qlog := by
   unfold clearTask
   cases e.get? id <;> simp [Exec.setTask]
 
 theorem foldl_clearTask_len (l : List Nat) : ∀ e : Exec, (l.foldl clearTask e).tasks.length = e.tasks.length := by
   induction l with
   | nil => intro e; rfl
-  | cons a l ih => intro e; rw [List.foldl_cons, ih, (clearTask_queues e a).2.2]
+  | cons a l ih => intro e; rw [List.foldl_cons, ih, (clearTask_queues e a).2.2.1]
 
 theorem qrep_execDrop {e : Exec} (h : QRep e) : QRep (execDrop e) := by
-  obtain ⟨c, r, l⟩ := h
+  obtain ⟨c, q, r, l⟩ := h
   obtain ⟨r', l'⟩ := rep_clear r
-  exact ⟨clear c, by simpa [execDrop, clearAll] using r', by
+  exact ⟨clear c, by simpa [execDrop, clearAll] using runOps_snoc q (show applyOp c .clear = some (clear c) from rfl),
+    by simpa [execDrop, clearAll] using r', by
     simp only [execDrop, clearAll]; rw [l', l, foldl_clearTask_len]⟩
 
 theorem qrep_remoteWakeB {e : Exec} (h : QRep e) (id n : Nat) : QRep (remoteWakeB e id n).1 := by
@@ -254,7 +275,7 @@ theorem qrep_apply {e : Exec} (h : QRep e) (op : Op) : QRep (apply e op) := by
     exact qrep_remoteSchedule (e := chargeBudget e) (h.congr rfl rfl rfl) id
   | rwakeb id n => simp only; split; exact h; exact qrep_remoteWakeB h id n
 
-theorem qrep_new (q : Nat) : QRep (Exec.new q) := ⟨IQ.empty, rep_empty, rfl⟩
+theorem qrep_new (q : Nat) : QRep (Exec.new q) := ⟨IQ.empty, rfl, rep_empty, rfl⟩
 
 /-- after every program the model's queue is the abstraction of a well-formed intrusive queue -/
 theorem qrep_run (q : Nat) (ops : List Op) : QRep (run q ops) := by
